@@ -319,7 +319,7 @@ fn fixed_split_off() {
     kani::assume(start <= end && end <= len);
     kani::assume(start == 0 || end == len || start == end);
     let off = v.split_off(start..end);
-    fixed_split_check(&vals, len, v, off, start, end);
+    fixed_split_check::<CAP>(&vals, len, v, off, start, end);
     kani::cover!(true, "END: harness ran to completion");
 }
 
@@ -328,35 +328,52 @@ fn fixed_split_off() {
 #[kani::stub(core::ptr::copy, crate::stubs::copy_stub)]
 #[kani::stub(core::ptr::copy_nonoverlapping, crate::stubs::copy_stub)]
 fn fixed_split_off_interior() {
+    // all 20 interior shapes for len <= 6 in a buffer of capacity 6 (see `box_split_off_interior`)
     let vals = any_vals();
-    let mut buf = new_buf();
+    let mut buf = new_buf6();
     let shape: u8 = kani::any();
-    kani::assume(shape < 4);
+    kani::assume(shape < 20);
     macro_rules! arm {
         ($len:literal, $s:literal, $e:literal) => {{
-            let mut v = unsafe { fixed(&mut buf, $len, &vals) };
+            let mut v = unsafe { fixed6(&mut buf, $len, &vals) };
             let off = v.split_off($s..$e);
-            fixed_split_check(&vals, $len, v, off, $s, $e);
+            fixed_split_check::<CAP6>(&vals, $len, v, off, $s, $e);
         }};
     }
-    kani::cover!(shape == 1, "nearer the front (rotate_right)");
-    kani::cover!(shape == 3, "nearer the back (rotate_left)");
+    kani::cover!(shape == 4, "len 5, 1..3: nearer the front, head_len != range_len (rotate_right)");
+    kani::cover!(shape == 8, "len 5, 2..4: nearer the back, tail_len != range_len (rotate_left)");
     match shape {
         0 => arm!(3, 1, 2),
         1 => arm!(4, 1, 2),
         2 => arm!(4, 1, 3),
-        _ => arm!(4, 2, 3),
+        3 => arm!(4, 2, 3),
+        4 => arm!(5, 1, 3),
+        5 => arm!(5, 1, 2),
+        6 => arm!(5, 1, 4),
+        7 => arm!(5, 2, 3),
+        8 => arm!(5, 2, 4),
+        9 => arm!(5, 3, 4),
+        10 => arm!(6, 1, 2),
+        11 => arm!(6, 1, 3),
+        12 => arm!(6, 1, 4),
+        13 => arm!(6, 1, 5),
+        14 => arm!(6, 2, 3),
+        15 => arm!(6, 2, 4),
+        16 => arm!(6, 2, 5),
+        17 => arm!(6, 3, 4),
+        18 => arm!(6, 3, 5),
+        _ => arm!(6, 4, 5),
     }
     kani::cover!(true, "END: harness ran to completion");
 }
 
 #[inline(always)]
-fn fixed_split_check(vals: &[u8; NIDS], len: usize, v: FixedBumpVec<E>, off: FixedBumpVec<E>, start: usize, end: usize) {
+fn fixed_split_check<const TOTAL: usize>(vals: &[u8; NIDS], len: usize, v: FixedBumpVec<E>, off: FixedBumpVec<E>, start: usize, end: usize) {
     let vals = *vals;
     let mut mo = Model::empty();
     let mut mr = Model::empty();
     let mut k = 0;
-    while k < CAP {
+    while k < 2 * CAP {
         if k < len {
             if k >= start && k < end {
                 mo.push(k as u8);
@@ -369,7 +386,7 @@ fn fixed_split_check(vals: &[u8; NIDS], len: usize, v: FixedBumpVec<E>, off: Fix
     assert_is(&off, &mo, &vals);
     assert_is(&v, &mr, &vals);
     assert!(off.capacity() >= off.len() && v.capacity() >= v.len(), "C08: capacity smaller than length after split_off");
-    assert!(off.capacity() + v.capacity() == CAP, "C16: capacities of the parts do not add up");
+    assert!(off.capacity() + v.capacity() == TOTAL, "C16: capacities of the parts do not add up");
     // spare capacity ranges of the parts are disjoint: [ptr, ptr+cap) do not overlap
     let sz = mem::size_of::<E>();
     let (a1, c1) = (off.as_ptr() as usize, off.capacity());
@@ -382,12 +399,12 @@ fn fixed_split_check(vals: &[u8; NIDS], len: usize, v: FixedBumpVec<E>, off: Fix
     // independence: push into whichever part has room; the sibling is unaffected
     let which: bool = kani::any();
     if which {
-        if off.try_push(E { id: CAP as u8, val: 7 }).is_ok() {
+        if off.try_push(E { id: (NIDS - 1) as u8, val: 7 }).is_ok() {
             kani::cover!(true, "pushed into the split-off part");
         }
         assert_is(&v, &mr, &vals);
     } else {
-        let _ = v.try_push(E { id: CAP as u8, val: 7 });
+        let _ = v.try_push(E { id: (NIDS - 1) as u8, val: 7 });
         assert_is(&off, &mo, &vals);
     }
     drop(off);
